@@ -11,6 +11,9 @@ use std::io::{self, BufRead};
 use std::process;
 use std::sync::mpsc;
 use std::thread;
+#[cfg(walleye_verif)]
+use crate::verif_seam::time::{Duration, Instant};
+#[cfg(not(walleye_verif))]
 use std::time::{Duration, Instant};
 
 const WHITE_KING_SIDE_CASTLE_STRING: &str = "e1g1";
